@@ -246,13 +246,19 @@ def gen_cases(rng, tier):
         L = max(len(a), len(b)) - 1
         Hx = '(%s)/(%s)' % (poly_str(b + [F(0)] * (L + 1 - len(b))), poly_str(a + [F(0)] * (L + 1 - len(a))))
         kw = [{}, {'pairs': False}, {'causal': True}, {'causal': True, 'pairs': False}][(i // 6) % 4]
-        add({'kind': 'izt', 'H': Hf if i % 2 == 0 else Hx, 'N': 14, 'b': [fs(v) for v in b], 'a': [fs(v) for v in a], 'kw': kw})
+        add({'kind': 'izt', 'H': Hf if i % 2 == 0 else Hx, 'N': 14, 'b': [fs(v) for v in b], 'a': [fs(v) for v in a], 'kw': kw, 'cpu_limit': 20})
     for i in range(5 * k):
         b, a, Hf = gen_multi_pole(rng, i)
-        add({'kind': 'impulse', 'b': [fs(v) for v in b], 'a': [fs(v) for v in a], 'N': 14})
+        add({'kind': 'impulse', 'b': [fs(v) for v in b], 'a': [fs(v) for v in a], 'N': 14, 'cpu_limit': 20})
     for i in range(4 * k):
-        b, a, Hf = gen_multi_pole(rng, 3 * i) if i % 2 == 0 else gen_pole_filter(rng, i) + (None,)
-        add({'kind': 'step', 'b': [fs(v) for v in b], 'a': [fs(v) for v in a], 'N': 12})
+        if i % 2 == 0:
+            while True:
+                b, a, Hf = gen_multi_pole(rng, rng.randint(0, 5))
+                if len(a) <= 6:
+                    break
+        else:
+            b, a = gen_pole_filter(rng, i)
+        add({'kind': 'step', 'b': [fs(v) for v in b], 'a': [fs(v) for v in a], 'N': 12, 'cpu_limit': 15})
     # L DFT
     for i in range(20 * k):
         N = [1, 2, 4, 3, 4, 5, 2, 6, 4, 8][i % 10]
@@ -1350,6 +1356,9 @@ def run(tier='quick', replay=None):
                 continue
             if 'unevaluated' in r:
                 res.count('unevaluated_' + c['kind'])
+                continue
+            if 'timeout' in r:
+                res.count('cpu_limit_' + c['kind'])
                 continue
             if 'inexact' in r:
                 res.count('inexact_' + c['kind'])
